@@ -296,7 +296,18 @@ var _ Storage = &vrtStore{}
 
 // ---- provider construction
 
-const vrtIssuer = "https://idp.example.test"
+const vrtStaticIssuer = "https://idp.example.test"
+
+// vrtIssuer is the issuer in effect for the request under test: the static
+// issuer, or "https://" + the request's Host when the provider derives it from
+// the request (vrtHostIssuer).
+var vrtIssuer = vrtStaticIssuer
+
+// vrtHostIssuer: the next provider built by vrtNewProviderWith derives its
+// issuer from the Host of each request (IssuerFromHost), so that one provider
+// serves several issuers - the request under test under host req.host, an
+// earlier request (vrtEarlierRequest) under hist.req.host.
+var vrtHostIssuer bool
 
 // vrtConfWant is the WantAuthRequestsSigned value of the provider under test.
 var vrtConfWant string
@@ -334,7 +345,17 @@ func vrtNewProviderWith(st *vrtStore, symbolicWant bool) *Provider {
 		conf.MetadataConfig = &MetadataConfig{SignatureAlgorithm: alg}
 		vrtMetaSign = false
 	}
-	p, err := NewProvider(st, StaticIssuer(vrtIssuer), conf)
+	issuer := StaticIssuer(vrtStaticIssuer)
+	vrtIssuer = vrtStaticIssuer
+	if vrtHostIssuer {
+		vrtHostIssuer = false
+		issuer = IssuerFromHost("")
+		host := vrtStr("req.host")
+		vrtAssume(vrtMatches(host, "hosttoken"))
+		vrtAssume(vrtMatches(vrtStr("hist.req.host"), "hosttoken"))
+		vrtIssuer = "https://" + host
+	}
+	p, err := NewProvider(st, issuer, conf)
 	if err != nil {
 		vrtFail("harness.NewProvider-failed")
 		panic(vrtStop{"NewProvider failed"})
